@@ -111,7 +111,7 @@ fn run1<T: Flt>(src: &mut Src, obs: &mut Obs) -> Result<(), Fail> {
     let class = axis_class(src);
     let n = if linear { src.usize_in(2, 12) } else { [3usize, 3, 4, 4, 5, 6, 8, 12, 20][src.below(9) as usize] };
     let x: Vec<f64> = match class {
-        AxisClass::Index | AxisClass::Unit | AxisClass::Dyadic => axis::<T>(src, n, class, Some(6)),
+        AxisClass::Index | AxisClass::Unit | AxisClass::Dyadic | AxisClass::Symmetric => axis::<T>(src, n, class, Some(6)),
         _ => {
             // scale the generated axis into [-8, 8] by a power of two (exact)
             let raw = axis::<T>(src, n, class, Some(6));
